@@ -61,7 +61,7 @@ def runRace (line : String) : String :=
       OP ::= (init I F) | (tryinit I F) | (initguard I F T) | dropguard | (initint I F) | (tryinitint I F)
            | (emit E LM) | (span E LM) | (rtemit E LM) | (direct E LM) | (emitint E LM) | (flush T) | obs
       F  ::= all | none | (minlvl LEVEL) | (idge N)        LM ::= plain | debug | info | warn | error
-    → one token per op, then recv=((cfg id lvl amb)…) flushes=((cfg t)…) -/
+    → one token per op, then recv=((cfg id lvl amb clocked|bare)…) flushes=((cfg t)…) -/
 
 def rank? : Sexp → Option Nat
   | .atom "debug" => some 0
@@ -134,7 +134,7 @@ def runGseq (ops : List Sexp) : String :=
     let (s, outs) := grun g0 (ls.map Prod.fst)
     let toks := (ls.map Prod.snd).zip outs |>.map fun (k, o) => showG k o
     let recv := s.delivered.reverse.map fun d =>
-      s!"({d.cfg} {d.evt.id} {rankName d.evt.lvl} {match d.amb with | some a => toString a | none => "none"})"
+      s!"({d.cfg} {d.evt.id} {rankName d.evt.lvl} {match d.amb with | some a => toString a | none => "none"} {if d.clocked then "clocked" else "bare"})"
     let fl := s.flushes.reverse.map fun (c, t) => s!"({c} {t})"
     let sig := s!"gseq,shared={s.shared.slot.isSome},internal={s.internal.slot.isSome},dlv={min s.delivered.length 3},fl={min s.flushes.length 2}"
     s!"{" ".intercalate toks} recv=({" ".intercalate recv}) flushes=({" ".intercalate fl})\t{sig}"
